@@ -175,10 +175,21 @@ func runDP(c *Ctx, s *Sink) {
 				}
 			},
 			func(info *types.Info, fd *ast.FuncDecl) func(ast.Node) bool {
-				return func(n ast.Node) bool { // the value ranged from the argument map
+				// the value variable of the range over the argument map
+				var val types.Object
+				if params := flattenParams(fd.Type.Params); len(params) == 1 && params[0] != nil {
+					arg := info.ObjectOf(params[0])
+					ast.Inspect(fd.Body, func(k ast.Node) bool {
+						if rs, ok := k.(*ast.RangeStmt); ok && rootObj(info, rs.X) == arg && rs.Value != nil {
+							val = rootObj(info, rs.Value)
+						}
+						return true
+					})
+				}
+				return func(n ast.Node) bool {
 					m := false
 					ast.Inspect(n, func(k ast.Node) bool {
-						if id, ok := k.(*ast.Ident); ok && id.Name == "val" {
+						if id, ok := k.(*ast.Ident); ok && val != nil && info.ObjectOf(id) == val {
 							m = true
 						}
 						return true
@@ -196,11 +207,15 @@ func runDP(c *Ctx, s *Sink) {
 		info := p.TypesInfo
 		defs := collectDefsTuple(info, fd)
 		var store *ast.AssignStmt
+		compound := false
 		ast.Inspect(fd.Body, func(n ast.Node) bool {
 			if as, ok := n.(*ast.AssignStmt); ok && len(as.Lhs) == 1 && len(as.Rhs) == 1 {
 				if _, isIdx := ast.Unparen(as.Lhs[0]).(*ast.IndexExpr); isIdx {
-					if b, isBin := ast.Unparen(as.Rhs[0]).(*ast.BinaryExpr); isBin && b.Op == token.ADD {
+					if b, isBin := ast.Unparen(as.Rhs[0]).(*ast.BinaryExpr); isBin && b.Op == token.ADD && as.Tok == token.ASSIGN {
 						store = as
+					}
+					if as.Tok == token.ADD_ASSIGN { // stats[k] += w : the old entry (0 when absent) is an operand by construction
+						store, compound = as, true
 					}
 				}
 			}
@@ -210,7 +225,7 @@ func runDP(c *Ctx, s *Sink) {
 			s.Fail(nil, ck.key, fd.Pos(), "no store of 'old + weight' into the statistics map: the weights of merged records are not accumulated")
 			continue
 		}
-		a := dependsOn(info, defs, store.Rhs[0], ck.a(info, fd), 0)
+		a := compound || dependsOn(info, defs, store.Rhs[0], ck.a(info, fd), 0)
 		b := dependsOn(info, defs, store.Rhs[0], ck.b(info, fd), 0)
 		s.Check(a && b, nil, ck.key, store.Pos(), "stored statistic = old entry + added weight", fmt.Sprintf("the stored statistic does not depend on both the old entry (%v) and the added weight (%v)", a, b))
 	}
